@@ -144,7 +144,7 @@ func TestC12Lab(t *testing.T) {
 			return tr
 		},
 		Admin: kit.AdminOpt{ForeignSignerPct: 10, InvalidPct: 10},
-		Env:   kit.EnvOpt{Kinds: []string{"reescrow", "ftf_pause", "ftf_unpause", "burn_limit", "next_block", "send_disable", "send_enable"}},
+		Env:   kit.EnvOpt{Kinds: []string{"reescrow", "ftf_pause", "ftf_unpause", "burn_limit", "next_block", "send_disable", "send_enable", "exec_mode"}},
 	}
 	rapid.Check(t, func(rt *rapid.T) {
 		c := caseHistory{History: kit.GenHistory(rt, opt)}
